@@ -20,6 +20,7 @@ const (
 	ShapeHuge
 	ShapeSpiky
 	ShapeHalts // a random walk with halted sessions: open = high = low = close (the previous close), zero volume
+	ShapeSteps // a random walk rounded to a few integer levels: exact repeats of earlier closes while still moving
 	NumShapes
 	// ShapeGlitch is outside the generally drawn shapes (prices are not positive): a random walk
 	// with data glitches - bars whose prices and volume are all 0. Only C05 draws it: its oracle
@@ -27,7 +28,7 @@ const (
 	ShapeGlitch = NumShapes
 )
 
-var shapeNames = []string{"walk", "flat", "up", "down", "saw", "ties", "tiny", "huge", "spiky", "halts", "glitch"}
+var shapeNames = []string{"walk", "flat", "up", "down", "saw", "ties", "tiny", "huge", "spiky", "halts", "steps", "glitch"}
 
 // genSnapshots returns n snapshots of the given shape with low <= open, close <= high, positive
 // prices, non-negative volume and consecutive whole-day UTC dates starting at start.
@@ -44,7 +45,7 @@ func genSnapshots(n int, shape int, seed int64, start time.Time) []*asset.Snapsh
 	}
 	for i := 0; i < n; i++ {
 		switch shape {
-		case ShapeWalk, ShapeTiny, ShapeHuge, ShapeHalts, ShapeGlitch:
+		case ShapeWalk, ShapeTiny, ShapeHuge, ShapeHalts, ShapeGlitch, ShapeSteps:
 			price *= 1 + 0.04*(rng.Float64()-0.5)
 		case ShapeFlat:
 		case ShapeUp:
@@ -83,6 +84,16 @@ func genSnapshots(n int, shape int, seed int64, start time.Time) []*asset.Snapsh
 			}
 		} else if shape == ShapeTies {
 			vol = float64(100 * (1 + i%3))
+		}
+		if shape == ShapeSteps {
+			// closes on the integer levels 10..15: purchase prices, previous closes and thresholds
+			// are hit exactly again and again
+			lvl := float64(10 + rng.Intn(6))
+			c = lvl
+			o = float64(10 + rng.Intn(6))
+			h = math.Max(o, c) + float64(rng.Intn(2))
+			l = math.Min(o, c) - float64(rng.Intn(2))
+			vol = float64(100 * (1 + rng.Intn(4)))
 		}
 		if shape == ShapeHalts && i > 0 && rng.Intn(6) == 0 {
 			price = out[i-1].Close / scale
